@@ -648,3 +648,4 @@ def size_independent_of_sharing(ctx):
         for bb, nm in bad:
             r11.fail('%s/%s' % (b.nid, nm.split('::')[-1]), mirq.site(b, bb), 'this size model stops counting where a reference count is above one ("someone else already counted it"): a stack built by repeated push accounts one node per version, and when the older versions die their nodes stay alive inside the newest one with nobody accounting for them -- 100000 live nodes are accounted 240 bytes and a size limit below the live payload is not enforced')
     r11.need(10)
+
